@@ -70,8 +70,28 @@ Record pexpr := {
   pe_names : list str;       (* VarNames *)
   pe_literal : nat;          (* LiteralCount *)
   pe_vars : nat;             (* VarCount *)
-  pe_tokens : list str       (* tokens = tokenizePath(template) *)
+  pe_tokens : list str;      (* tokens = tokenizePath(template) *)
+  pe_groups : nat            (* capture groups INSIDE the variables' own expressions (they count in len(matches)) *)
 }.
+
+(* capture groups inside a variable's expression: a '(' that is not escaped and not followed by '?'.  Exact for
+   the expressions the generators use (the harness checks the count against regexp.NumSubexp for every
+   expression of a case); '(' inside a character class is outside what is modelled *)
+Definition backslash : ascii := ascii_of_nat 92.
+Definition lparen : ascii := ascii_of_nat 40.
+Definition qmark : ascii := ascii_of_nat 63.
+Fixpoint re_groups (re : str) : nat :=
+  match re with
+  | [] => 0
+  | c :: re' =>
+      if Ascii.eqb c backslash then match re' with _ :: re'' => re_groups re'' | [] => 0 end
+      else if Ascii.eqb c lparen then
+        match re' with
+        | q :: _ => if Ascii.eqb q qmark then re_groups re' else S (re_groups re')
+        | [] => 1
+        end
+      else re_groups re'
+  end.
 
 Definition etok_of (t : str) : etok * option str :=
   if has_prefix t [lbrace] then
@@ -92,4 +112,5 @@ Definition path_expression (template : str) : pexpr :=
      pe_names := flat_map (fun e => match snd e with Some n => [n] | None => [] end) ets;
      pe_literal := fold_left (fun a e => match fst e with ELit s => a + List.length s | _ => a end) ets 0;
      pe_vars := List.length (filter (fun e => match snd e with Some _ => true | None => false end) ets);
-     pe_tokens := tokens |}.
+     pe_tokens := tokens;
+     pe_groups := fold_right (fun e a => match fst e with ERx re => re_groups re + a | _ => a end) 0 ets |}.
